@@ -342,8 +342,6 @@ class TheoryOracle(walkers.DagWalker):
             theory_out = theory_out.set_linear(False)
         else:
             theory_out = theory_out.combine(args[1])
-        return theory_out
-
         # This is  not in DL anymore
         theory_out = theory_out.set_difference_logic(False)
         return theory_out
